@@ -122,7 +122,7 @@ def inner_period(sysd, G=1.0):
 
 
 # ------------------------------------------------------------------ option lattices
-def random_options(r, integ, var=False, full=True):
+def random_options(r, integ, var=False, full=True, tscale=1.0):
     """Random documented option tuple for an integrator, as {attribute path: value}."""
     o = {}
     if integ == 'whfast':
@@ -156,7 +156,7 @@ def random_options(r, integ, var=False, full=True):
         o['ri_ias15.adaptive_mode'] = r.choice([0, 1, 2, 3])
         o['ri_ias15.epsilon'] = r.choice([1e-9, 1e-8, 1e-7])
         if r.random() < 0.3:
-            o['ri_ias15.min_dt'] = 1e-4
+            o['ri_ias15.min_dt'] = 1e-4 * tscale
     elif integ == 'mercurius':
         o['ri_mercurius.r_crit_hill'] = r.choice([3.0, 2.0, 4.5])
         o['ri_mercurius.L'] = r.choice(['mercury', 'infinity', 'C4', 'C5'])
@@ -170,9 +170,9 @@ def random_options(r, integ, var=False, full=True):
         o['ri_bs.eps_rel'] = r.choice([1e-8, 1e-10, 1e-6])
         o['ri_bs.eps_abs'] = r.choice([1e-8, 1e-10, 1e-6])
         if r.random() < 0.3:
-            o['ri_bs.max_dt'] = 0.5
+            o['ri_bs.max_dt'] = 0.5 * tscale
         if r.random() < 0.3:
-            o['ri_bs.min_dt'] = 1e-5
+            o['ri_bs.min_dt'] = 1e-5 * tscale
     elif integ == 'janus':
         o['ri_janus.order'] = r.choice([2, 4, 6, 8, 10])
         o['ri_janus.scale_pos'] = r.choice([1e-16, 2.0 ** -50, 1e-10])
@@ -281,4 +281,8 @@ def random_spec(r, integ=None, allow_var=True, nmax=4, avx512=False):
     if r.random() < 0.2 and integ not in ('whfast512',):
         spec['G'] = r.choice([6.674e-11, 39.476926421373, 0.5])
         spec['dt'] = spec['dt'] / math.sqrt(spec['G'])
+        for k in ('ri_ias15.min_dt', 'ri_bs.max_dt', 'ri_bs.min_dt'):      # absolute time scales follow the time unit
+            if k in opts:
+                opts[k] = opts[k] / math.sqrt(spec['G'])
+    spec['tscale'] = 1.0 / math.sqrt(spec.get('G', 1.0))
     return spec
